@@ -1,5 +1,7 @@
 import Fabio.Props.C02
 import Fabio.Model.C02Buf
+import Fabio.Lemmas.C02Scan
+import Fabio.Lemmas.C02ScanAll
 /-!
 C02, round 4 — the long-lived `tableBuffer` of the update loop (`Model/C02Buf.lean`).
 
@@ -138,6 +140,16 @@ theorem nlFlags_size (text : Str) : (nlFlags text).size = byteLen text := by
   have := (nlFlags_size_aux text #[] 0).1
   simpa [nlFlags, byteLen] using this
 
+theorem shift_off (s : Scan) : s.shift.off = s.off := by unfold Scan.shift; split <;> rfl
+theorem grow_off (cfg : ScanCfg) (s : Scan) : (s.grow cfg).off = s.off := by unfold Scan.grow; split <;> rfl
+theorem read_off_le (data : Array Bool) (s : Scan) (h : s.off ≤ data.size) : (s.read data).off ≤ data.size := by
+  unfold Scan.read
+  split
+  · exact h
+  · have := Nat.min_le_right (s.cap - s.end_) (data.size - s.off)
+    show s.off + min (s.cap - s.end_) (data.size - s.off) ≤ data.size
+    omega
+
 /-- `Scan()` never takes more out of the buffer than it holds -/
 theorem scan_off_le (cfg : ScanCfg) (data : Array Bool) : ∀ (fuel : Nat) (s : Scan), s.off ≤ data.size →
     (Scan.next cfg data fuel s).2.off ≤ data.size := by
@@ -147,12 +159,15 @@ theorem scan_off_le (cfg : ScanCfg) (data : Array Bool) : ∀ (fuel : Nat) (s : 
   | succ fuel ih =>
     intro s h
     unfold Scan.next
-    simp only
-    repeat' split
-    all_goals first
-      | (simpa using h)
-      | (apply ih; simp only; omega)
-      | (apply ih; simp only; split <;> simp only <;> omega)
+    split
+    · exact h
+    · split
+      · exact h
+      · split
+        · show s.shift.off ≤ data.size; rw [shift_off]; exact h
+        · apply ih
+          apply read_off_le
+          rw [grow_off, shift_off]; exact h
 
 theorem scanLoop_off_le (cfg : ScanCfg) (data : Array Bool) (stop : Nat → Bool) : ∀ (fuel i : Nat) (s : Scan),
     s.off ≤ data.size → (scanLoop cfg data stop fuel i s).1.off ≤ data.size := by
@@ -178,8 +193,70 @@ theorem consumed_le (cfg : ScanCfg) (text : Str) (stop : Option Nat) : consumed 
   rw [← nlFlags_size]
   exact scanLoop_off_le cfg _ _ _ _ _ (by simp)
 
+/-! ### the scanner delivers lines -/
+open Fabio.Lemmas.C02Scan (NoNL Ok)
+
+/-- **What one call of `Scan()` returns, with Go's constants** (4096-byte start buffer, 64 KiB token limit; the general
+statement for any constants `0 < startBuf ≤ maxTok` is `Lemmas.C02Scan.next_spec`). For every source and every state
+`s` the scanner can be in (`Ok`: initially, and again after every delivered token), with `s.base` = the position where
+the previous token's line ended:
+* a token `(p, l)` starts at `s.base`, holds no newline, is shorter than 65536 bytes, and is followed by a newline (the
+  next token starts behind it) — or it is the non-empty rest of a source whose end has been seen;
+* `false` with `ErrTooLong` happens only when the next 65536 bytes hold no newline;
+* `false` without an error happens only when the source is exhausted.
+So the tokens are exactly the maximal newline-free segments up to the first one of 65536 bytes or more — the line-level
+reading (`Parse.rawLines`, `maxToken ≤ byteLen raw`) the model of `route.Parse` uses. -/
+theorem scan_delivers_lines (data : Array Bool) (fuel : Nat) (s : Scan) (h : Ok goCfg data s)
+    (hf : data.size - s.off + (if s.eof then 0 else 1) < fuel) :
+    match Scan.next goCfg data fuel s with
+    | (some (p, l), s') =>
+        Ok goCfg data s' ∧ p = s.base ∧ NoNL data p (p + l) ∧ l < 65536 ∧
+        ((data[p + l]? = some true ∧ s'.base = p + l + 1) ∨
+         (0 < l ∧ p + l = data.size ∧ s'.base = data.size ∧ s'.eof = true))
+    | (none, s') =>
+        (s'.tooLong = true ∧ NoNL data s.base (s.base + 65536) ∧ s.base + 65536 ≤ data.size) ∨
+        (s'.tooLong = false ∧ s.base = data.size) :=
+  Fabio.Lemmas.C02Scan.next_spec goCfg data (by decide) (by decide) fuel s h hf
+
+open Fabio.Lemmas.C02ScanAll (scanAll segs)
+
+/-- **The scanner delivers exactly the lines.** `segs data 65536 n p` is the specification, free of buffers and chunks:
+the maximal newline-free segments of the source from position `p` on, cut at the first one of 65536 bytes or more
+(`Lemmas/C02ScanAll.lean`). From ANY state the scanner can be in, the tokens of all further `Scan()` calls are these
+segments from `s.base` on, and the scanner ends with `ErrTooLong` exactly when such a segment exists. (General constants:
+`Lemmas.C02ScanAll.scanAll_eq_segs`.) -/
+theorem scan_delivers_exactly_the_lines (data : Array Bool) (n : Nat) (s : Scan) (h : Ok goCfg data s)
+    (hn : data.size - s.base < n) :
+    (scanAll goCfg data n s).1 = (segs data 65536 n s.base).1 ∧
+    (scanAll goCfg data n s).2.tooLong = (segs data 65536 n s.base).2 :=
+  Fabio.Lemmas.C02ScanAll.scanAll_eq_segs goCfg data (by decide) (by decide) n s h hn
+
+/-- the fuel `scanLoop` hands every call is enough, whatever state the scanner is in -/
+theorem scan_fuel_suffices (data : Array Bool) (s : Scan) :
+    data.size - s.off + (if s.eof then 0 else 1) < data.size + 40 := by
+  split <;> omega
+
 /-! ## non-vacuity -/
 section examples
+
+/-- the initial scanner state satisfies `Ok`; the first call on `ab⏎cd` with a 4-byte buffer delivers `(0, 2)`, the
+second `(3, 2)` as the rest of the source, the third `false` without error -/
+example (cfg : ScanCfg) (data : Array Bool) : Ok cfg data {} := Fabio.Lemmas.C02Scan.Ok.init cfg data
+
+/-- four lines, one of them empty, the last without newline: specification and scanner (4-byte start buffer) agree;
+a 10-byte line with an 8-byte limit: both stop after the first line with `ErrTooLong` -/
+example : segs (nlFlags "ab\ncd\n\nx".toList) 16 10 0 = ([(0,2),(3,2),(6,0),(7,1)], false) ∧
+    (scanAll ⟨4, 16⟩ (nlFlags "ab\ncd\n\nx".toList) 10 {}).1 = [(0,2),(3,2),(6,0),(7,1)] := by decide
+example : segs (nlFlags "ab\n0123456789\nzz".toList) 8 10 0 = ([(0,2)], true) ∧
+    ((scanAll ⟨4, 8⟩ (nlFlags "ab\n0123456789\nzz".toList) 10 {}).1,
+     (scanAll ⟨4, 8⟩ (nlFlags "ab\n0123456789\nzz".toList) 10 {}).2.tooLong) = ([(0,2)], true) := by decide
+
+example :
+    let d := nlFlags "ab\ncd".toList
+    let r1 := Scan.next ⟨4, 16⟩ d 50 {}
+    let r2 := Scan.next ⟨4, 16⟩ d 50 r1.2
+    let r3 := Scan.next ⟨4, 16⟩ d 50 r2.2
+    (r1.1, r2.1, r3.1, r3.2.tooLong) = (some (0, 2), some (3, 2), none, false) := by decide
 
 /-- a loop whose `NewTable` leaves junk behind after a failure, started with junk in the buffer: fail, recover -/
 example : ((runB true toyNT (WBB.init 0 "junk".toList) [.svc "xx".toList, .svc "g".toList]).wb.active,
